@@ -461,6 +461,8 @@ type FuncContract struct {
 	Pure       bool
 	PureDef    *Clause // closures: result == E
 	PanicsNever bool
+	Rely       []*Clause // two-state: what other goroutines may do to sync.Maps between two of this function's steps
+	Guarantee  []*Clause // two-state: what every sync.Map step of this function does
 	IterKind   string // goset | syncmap
 	IterBody   bool // closure passed to a Range-style iterator: its requires must be re-established when it returns true
 	Inline     bool
@@ -547,7 +549,7 @@ var onlyforRe = regexp.MustCompile(`\s+onlyfor\s+([A-Z0-9, ]+)$`)
 
 var propsRe = regexp.MustCompile(`\s+props\s+([A-Z0-9, ]+)$`)
 
-var directiveKw = []string{"interface ", "trusted", "func ", "extern ", "requires ", "ensures ", "as-is ", "modifies ", "loop ", "pure-def ", "pure", "panics-never", "iterator-body", "inline", "opaque", "spec ", "axiom ", "lemma ", "refines ", "ghost ", "invariant ", "package ", "const ", "props "}
+var directiveKw = []string{"interface ", "trusted", "func ", "extern ", "requires ", "ensures ", "rely ", "guarantee ", "as-is ", "modifies ", "loop ", "pure-def ", "pure", "panics-never", "iterator-body", "inline", "opaque", "spec ", "axiom ", "lemma ", "refines ", "ghost ", "invariant ", "package ", "const ", "props "}
 
 func isDirective(l string) bool {
 	for _, k := range directiveKw {
@@ -710,7 +712,7 @@ func (sp *Spec) ParseContractFile(path, defaultPkg string) error {
 			for _, u := range strings.Split(strings.TrimPrefix(l, "props "), ",") {
 				cur.Props = append(cur.Props, strings.TrimSpace(u))
 			}
-		case strings.HasPrefix(l, "requires "), strings.HasPrefix(l, "ensures "), strings.HasPrefix(l, "as-is "), strings.HasPrefix(l, "pure-def "):
+		case strings.HasPrefix(l, "requires "), strings.HasPrefix(l, "ensures "), strings.HasPrefix(l, "rely "), strings.HasPrefix(l, "guarantee "), strings.HasPrefix(l, "as-is "), strings.HasPrefix(l, "pure-def "):
 			if cur == nil {
 				return fail("clause outside func")
 			}
@@ -726,6 +728,10 @@ func (sp *Spec) ParseContractFile(path, defaultPkg string) error {
 				cur.Ensures = append(cur.Ensures, c)
 			case "as-is":
 				cur.AsIs = append(cur.AsIs, c)
+			case "rely":
+				cur.Rely = append(cur.Rely, c)
+			case "guarantee":
+				cur.Guarantee = append(cur.Guarantee, c)
 			case "pure-def":
 				cur.PureDef = c
 				cur.Pure = true
